@@ -1161,3 +1161,36 @@ Proof.
   destruct (wk s) eqn:Ew; simpl; split; try reflexivity; intros H; try discriminate.
   split; reflexivity.
 Qed.
+
+(* ---------- nobody asked for the transaction: success ---------- *)
+
+Definition no_getdata (ms : list pmsg) : bool :=
+  forallb (fun m => match m with MGetData _ true => false | _ => true end) ms.
+
+Lemma no_getdata_replies : forall ms s, replies s = [] -> no_getdata ms = true ->
+  replies (fold_left q_step ms s) = [].
+Proof.
+  induction ms as [|m ms IH]; intros s Hs Hn; simpl; [exact Hs|].
+  simpl in Hn. apply andb_true_iff in Hn. destruct Hn as [Hm Hn]. apply IH; [|exact Hn].
+  destruct m as [p hit | p hit c | p]; simpl.
+  - destruct (mem p (closed s)); [exact Hs|]. destruct hit; [discriminate | exact Hs].
+  - destruct (mem p (closed s)); [exact Hs|]. destruct hit; simpl; [|exact Hs].
+    destruct (mem p (replies s)); simpl; exact Hs.
+  - exact Hs.
+Qed.
+
+Lemma no_repliers_success : forall order ms tnum tden,
+  replies (collect ms) = [] -> send_transaction order ms tnum tden = VNone.
+Proof.
+  intros order ms tnum tden Hr.
+  destruct (send_transaction order ms tnum tden) eqn:E; [reflexivity | |];
+    exfalso;
+    assert (H : send_transaction order ms tnum tden <> VNone) by (rewrite E; discriminate);
+    apply send_transaction_iff in H; destruct H as [Hne _]; apply Hne; exact Hr.
+Qed.
+
+Lemma nobody_asked_success : forall order ms tnum tden,
+  no_getdata ms = true -> send_transaction order ms tnum tden = VNone.
+Proof.
+  intros. apply no_repliers_success. unfold collect. apply no_getdata_replies; [reflexivity | assumption].
+Qed.
